@@ -211,3 +211,15 @@ reg("C11", "rv-fuzz", "exploration", "panic / native-trap monitor under schema-d
     "All 246 functions and methods of the 29 native blueprints are enumerated from the genesis database with their input schemas, receivers and auth templates; each call is one transaction whose arguments come from a schema-walking generator (extreme numbers, empty/huge collections, every enum variant + unknown discriminators, right- and wrong-kind real addresses, real/foreign/empty/reused buckets and proofs, existing/burned/wrong-type ids), from verbatim or one-leaf-hostile arguments of successful calls, and from byte mutants that still decode; receivers include frozen vaults, dried pools, unregistered/locked validators, controllers in recovery, locked metadata/owner roles; bucket/proof/vault/auth-zone methods are reached through a proxy component. Every execution runs under catch_unwind and the receipt is scanned for native traps / system panics (the panic hook records panics swallowed by the native VM).",
     _LEDGER_NOTE + " Functions no user transaction can call are additionally exercised with auth disabled as observations only. Notarized/subintent transactions and non-genesis costing are covered by other checks (C07, C06).", "DESIGN.md §4 C11",
     watchdog={"quick": 1800, "thorough": 4 * 3600})
+
+reg("C50", "rv-probe", "exploration", "system-call script interpreter (native SysProbe blueprint) + ownership model oracle",
+    "A native probe blueprint published under two package addresses (same blueprint names, different packages; with an inner blueprint) interprets random 30-step scripts of system calls (new_object of own/foreign blueprints and outers, drop_object, globalize, actor field/KV access, key-value store access on stores it does not own, method calls, address reservations) on nodes it owns, receives as arguments or forges by id; the harness knows each node's blueprint and outer from the creating step / stored TypeInfo: create/drop/globalize/state access on foreign objects must return an error, never-called victim components must have zero state updates in every commit, own-object operations and Proof::drop by the holder must not be refused with an access error.",
+    _LEDGER_NOTE + " Scripts stop after the first failed invocation (a WASM component would have trapped); SystemApi routes only, fungible resources as targets.", "DESIGN.md §4 C50")
+reg("C49", "rv-probe", "exploration", "limit boundary probes (exactly L / L+1) + limit monitor on every commit (hook H4)",
+    "Under random LimitParameters overrides, programs calibrated to produce exactly L and L+1 of each limited quantity (event count, log count, event size, log size, substate key size, value size, invoke payload size, call depth, heap bytes, track bytes; thresholds for the memory quantities found by bisection) run from the same snapshot: L must succeed and L+1 must fail with the matching TransactionLimitsError. Additionally every committed user transaction of the long mixed histories is checked against the configured limits (events/logs counts and sizes, written value sizes, deepest frame and largest invoke payload from hook H4).",
+    _LEDGER_NOTE, "DESIGN.md §4 C49")
+CHECKS["C49"]["also"] = ["rv-engine"]
+CHECKS["C51"]["also"] = ["rv-probe"]
+CHECKS["C51"]["text"] += " A second workload (rv-probe) exercises locks taken by a custom component: field_lock, key-value entry locks (collection and owned store) and component royalty lock, followed by write/set/remove attempts in later transactions."
+CHECKS["C51"]["note"] = _LEDGER_NOTE
+CHECKS["C36"]["also"] = ["rv-flow"]
